@@ -2,7 +2,7 @@
 written: nested loops with add / update, guard clauses, comprehensions with
 several generators, a returned set / list comprehension.
 
-`yields(fn_node)` -> list of (levels, elt): `levels` is a list of
+`yields(fn_node)` -> list of (levels, elt, accumulator name): `levels` is a list of
   {'target': name, 'iter': expr, 'conds': [(polarity, test_expr)]}
 from the outermost generator / loop inwards (conditions are attached to the
 innermost level open where they are tested), `elt` the element expression.
@@ -61,7 +61,7 @@ def yields(fn_node):
                         'conds': [('T', _sub(c, env)) for c in conds]}]
     return levels, env
 
-  def comp(node, levels, env):
+  def comp(node, levels, env, acc='<return>'):
     """a comprehension appended below the current levels"""
     lv = [dict(l, conds=list(l['conds'])) for l in levels]
     env = dict(env)
@@ -70,7 +70,7 @@ def yields(fn_node):
         problems.append('tuple target')
         return
       lv, env = push(lv, env, g.target.id, g.iter, list(g.ifs))
-    out.append((lv, _sub(node.elt, env)))
+    out.append((lv, _sub(node.elt, env), acc))
 
   def walk(stmts, levels, env):
     env = dict(env)
@@ -84,7 +84,8 @@ def yields(fn_node):
         elif isinstance(v, (ast.SetComp, ast.ListComp)) or (
             isinstance(v, ast.Call) and core.dotted(v.func) in ('set', 'list', 'tuple')
             and len(v.args) == 1 and isinstance(v.args[0], (ast.GeneratorExp, ast.ListComp))):
-          comp(v if not isinstance(v, ast.Call) else v.args[0], levels, env)
+          comp(v if not isinstance(v, ast.Call) else v.args[0], levels, env,
+               st.targets[0].id)
         elif not (isinstance(v, ast.Call) and core.dotted(v.func) in ('set', 'list')
                   and not v.args) and not isinstance(v, (ast.List, ast.Set)):
           env[st.targets[0].id] = _sub(v, env)
@@ -114,11 +115,21 @@ def yields(fn_node):
       if isinstance(st, ast.Expr) and isinstance(st.value, ast.Call) and isinstance(
           st.value.func, ast.Attribute) and len(st.value.args) == 1:
         c = st.value
+        acc = core.norm(c.func.value)
         if c.func.attr in ('add', 'append'):
-          out.append((levels, _sub(c.args[0], env)))
+          out.append((levels, _sub(c.args[0], env), acc))
         elif c.func.attr in ('update', 'extend') and isinstance(
             c.args[0], (ast.GeneratorExp, ast.ListComp, ast.SetComp)):
-          comp(c.args[0], levels, env)
+          comp(c.args[0], levels, env, acc)
+        elif c.func.attr in ('update', 'extend'):
+          # every element of the argument: one more (unfiltered) level
+          l2, e2 = push(levels, env, '_each', c.args[0], [])
+          out.append((l2, ast.Name(id='_each', ctx=ast.Load()), acc))
+        continue
+      if isinstance(st, ast.AugAssign) and isinstance(st.op, (ast.Add, ast.BitOr)) and \
+          isinstance(st.target, ast.Name):
+        l2, e2 = push(levels, env, '_each', st.value, [])
+        out.append((l2, ast.Name(id='_each', ctx=ast.Load()), st.target.id))
         continue
       if isinstance(st, ast.Return) and st.value is not None:
         v = st.value
